@@ -4,13 +4,17 @@
 #    suite, and that the demo fails with it and passes without it;
 # 2. applies it to /repo, runs the quick check(s), reverts;
 # 3. stores patch, demo and meta.json under /verif/seeded/<name>/.
+# EVAL_REPO / EVAL_VROOT: evaluate against a scratch worktree of /repo (same HEAD) with a copy of the
+# harness (same sources) instead of /repo and /verif themselves, so that long clean-tree runs can go on there.
 PROP=$1; PATCH=$2; DEMO=$3; NAME=$4; shift 4
+REPO=${EVAL_REPO:-/repo}; VROOT=${EVAL_VROOT:-/verif}
+export VERIF_REPO=$REPO
 OUT=/verif/seeded/$NAME
 W=/tmp/scratch-eval-$NAME
 mkdir -p "$OUT"
 git -C /repo worktree remove --force "$W" 2>/dev/null; rm -rf "$W"
 git -C /repo worktree add -q --detach "$W" HEAD || exit 2
-cleanup() { git -C /repo worktree remove --force "$W" 2>/dev/null; rm -rf "$W"; git -C /repo checkout -- . 2>/dev/null; }
+cleanup() { git -C /repo worktree remove --force "$W" 2>/dev/null; rm -rf "$W"; git -C $REPO checkout -- . 2>/dev/null; }
 trap cleanup EXIT
 cd "$W"
 export CARGO_NET_OFFLINE=true CARGO_TARGET_DIR=/tmp/scratch-eval-target
@@ -31,18 +35,18 @@ fi
 cd /verif; unset CARGO_TARGET_DIR
 cp "$PATCH" "$OUT/patch.diff"; cp "$DEMO" "$OUT/demo.rs"
 results=""
-if [ -n "$(git -C /repo status --porcelain --untracked-files=no)" ]; then echo "repo dirty"; exit 2; fi
-rm -rf /tmp/evidence-backup-$NAME; cp -r /verif/evidence /tmp/evidence-backup-$NAME
-git -C /repo apply "$PATCH" || { echo "cannot apply to /repo"; exit 3; }
+if [ -n "$(git -C $REPO status --porcelain --untracked-files=no)" ]; then echo "repo dirty"; exit 2; fi
+rm -rf /tmp/evidence-backup-$NAME; cp -r $VROOT/evidence /tmp/evidence-backup-$NAME
+git -C $REPO apply "$PATCH" || { echo "cannot apply to $REPO"; exit 3; }
 for p in $PROP "$@"; do
-  o=$(./check $p ${TIER:-quick} 2>&1); c=$?
+  o=$($VROOT/check $p ${TIER:-quick} 2>&1); c=$?
   sig=$(echo "$o" | grep -E '^violation:' | head -1 | cut -c1-200 | sed 's/"/'"'"'/g')
   results="$results{\"property\":\"$p\",\"tier\":\"${TIER:-quick}\",\"exit\":$c,\"first_violation\":\"$sig\"},"
   echo "$NAME check $p exit=$c $sig"
 done
-git -C /repo checkout -- .
+git -C $REPO checkout -- .
 # evidence written while a mutant was applied is not evidence about the tree
-rm -rf /verif/evidence; mv /tmp/evidence-backup-$NAME /verif/evidence
+rm -rf $VROOT/evidence; mv /tmp/evidence-backup-$NAME $VROOT/evidence
 cat > "$OUT/meta.json" <<EOM
 {
  "name": "$NAME",
@@ -53,7 +57,7 @@ cat > "$OUT/meta.json" <<EOM
  "demo_without_patch": "$without",
  "demo_confirms": "$demo_ok",
  "checks_run": [${results%,}],
- "commands": ["git apply patch.diff (scratch worktree)", "cargo test --offline", "cargo test --offline --test demo (with / without patch)", "git -C /repo apply patch.diff; ./check <P> quick; git -C /repo checkout -- ."]
+ "commands": ["git apply patch.diff (scratch worktree)", "cargo test --offline", "cargo test --offline --test demo (with / without patch)", "git -C $REPO apply patch.diff; $VROOT/check <P> quick; git -C $REPO checkout -- ."]
 }
 EOM
 rm -f "$OUT/demo_with.log.tmp"
